@@ -212,7 +212,7 @@ def gen_govc(prop):
     return [
         {"dir": "{repo}", "pkgs": ["./internal/parser/lr1/action", "./internal/parser/lr1/items"], "contracts": [ACTION_CONTRACTS, LR1ITEMS_CONTRACTS, "{repo}/internal/ast/zz_contracts_verif.go", "{repo}/internal/parser/first/zz_contracts_verif.go"], "prop": prop},
         {"dir": "{repo}", "pkgs": ["."], "contracts": [MAIN_CONTRACTS], "prop": prop},
-        {"dir": "{repo}", "pkgs": ["./internal/parser/gen/golang"], "contracts": ["{repo}/internal/parser/gen/golang/zz_contracts_gen_verif.go", ACTION_CONTRACTS, LR1ITEMS_CONTRACTS, "{repo}/internal/ast/zz_contracts_verif.go", "{repo}/internal/parser/first/zz_contracts_verif.go"], "prop": prop},
+        {"dir": "{repo}", "pkgs": ["./internal/parser/gen/golang", "./internal/ast"], "contracts": ["{repo}/internal/parser/gen/golang/zz_contracts_gen_verif.go", ACTION_CONTRACTS, LR1ITEMS_CONTRACTS, "{repo}/internal/ast/zz_contracts_verif.go", "{repo}/internal/parser/first/zz_contracts_verif.go"], "prop": prop},
     ]
 
 
@@ -1140,6 +1140,9 @@ for _p in ("C02", "C04", "C06"):
     PROPS[_p]["explanation"] += " Generator side, proved for all FIRST tables and symbol strings: FirstS is the union of FIRST of the symbols up to and including the first non-nullable one and contains the marker 'empty' exactly when every symbol is nullable (First, SymbolSet.AddSet, FirstSets.GetSet under contract); GetFirstSets returns sets that are closed under the three rules of its iteration (the loop stops only when no production can add anything: invariant 'a change was recorded or every production seen so far is closed', AddToken/AddSet report exactly whether they changed anything); ItemSet.Closure returns a set that contains its argument and is closed under the LR(1) closure rule (for every item [A -> x . B y, a], production B -> z and terminal b in FIRST(y a), the item [B -> . z, b] is present; AddItem, first1, Contain, NewItemSet under contract, NewItem trusted for its rendered key), Goto returns the closed set that holds every item with the dot moved over X; GetItemSets returns an automaton whose states are all closed and in which every state has, for every symbol over which one of its items can move the dot, a transition to a state holding all those moved items (state identification by ItemSet.Equal, with the pigeonhole principle for finite sets as a trusted schema). The goto table builders (getGotoRowData, getGotoTableData) hand the template, for every state and nonterminal in numbering order, exactly the automaton's transition (-1 where there is none). That nothing unjustified is ever added (least fixed points), the action rows' texts and the template rendering are decided by the bounded SYN sweep only."
 
 
+# generator side of C03: the production table (pops, default actions)
+PROPS["C03"]["govc"] = PROPS["C03"]["govc"] + gen_govc("C03")[2:3]
+PROPS["C03"]["explanation"] += " Generator side: getProdsTab is proved to give every production, in grammar order, the number of symbols the reduce step pops (0 for an `empty` body, the body length otherwise), the nonterminal number of its head, and - where the grammar gives no action - the default action (the first attribute, nil for an empty body); the rewriting of an explicit action text is the bounded ACT scope."
 # generator side of C02: the LR(1) closure and goto (contracts in lr1/items)
 PROPS["C02"]["govc"] = PROPS["C02"]["govc"] + gen_govc("C02")[:1] + gen_govc("C02")[2:3]
 
